@@ -186,6 +186,8 @@ mod queue;
 mod return_;
 mod serialize;
 mod stream;
+#[cfg(amiquip_verif)]
+pub mod verif;
 
 pub use auth::{Auth, Sasl};
 pub use channel::Channel;
